@@ -66,6 +66,9 @@ pub struct CCase {
   pub slow_item: i64,
   #[serde(default)]
   pub slow_ms: u64,
+  /// connectables (publish / ref_count / replay over a source term), referenced by the term `conn`
+  #[serde(default)]
+  pub conn: Vec<crate::seq::ConnCfg>,
 }
 
 pub fn ev(v: serde_json::Value) {
@@ -256,6 +259,16 @@ pub fn run_ccase(case: &CCase, strategy: Strategy, log_locks: bool, budget: u64)
     let w: W = Arc::new(Mutex::new(World { cur: 0, in_cur: 0, log: vec![], regs: vec![vec![]; 4], inner: vec![], sbj: vec![], conn: vec![], tok_ops: Arc::new(()) }));
     let sbjs: Vec<Sbj> = case.sbj.iter().map(|k| Sbj::new(k)).collect();
     w.lock().unwrap().sbj = sbjs;
+    let mut conns = vec![];
+    for cc in &case.conn {
+      let src = build(&cc.term, &w);
+      conns.push(match cc.kind.as_str() {
+        "publish" => ConnObj::Publish(src.publish()),
+        "ref_count" => ConnObj::RefCount(src.ref_count()),
+        _ => ConnObj::Replay(src.replay()),
+      });
+    }
+    w.lock().unwrap().conn = conns;
     let root = build(&case.root, &w);
     let sched = match case.kind.as_str() {
       "queue" => Sched::NewThread(schedulers::NewThreadScheduler::new()),
@@ -302,7 +315,7 @@ pub fn trace_of(id: u64, case: &CCase, r: &RunResult) -> (Vec<String>, String) {
     let o = v.as_object_mut().unwrap();
     o.insert("t".into(), json!(e.tid));
     o.insert("clk".into(), json!(e.clock / 1_000_000));
-    for f in ["u", "src", "v", "task", "lock", "cv"] {
+    for f in ["u", "src", "v", "task", "lock", "cv", "issub"] {
       o.entry(f).or_insert(json!(0));
     }
     o.entry("k").or_insert(json!(""));
